@@ -541,7 +541,7 @@ theorem validatePageField_eq (f : PageField) (x : Raw) (h : pageInDomain f x = t
 theorem specPage_cases (kw : PageField → Option Raw) :
     specPage kw = .free ∨
     (constructPage kw = .ok () ∧ specPage kw = .accept) ∨
-    (constructPage kw = .error .validationError ∧ specPage kw = .reject) := by
+    ((∃ e, constructPage kw = .error e ∧ e.isValueError = true) ∧ specPage kw = .reject) := by
   by_cases hdom : pageFields.all (pageSuppliedInDomain kw) = true
   · right
     have hall : pageFields.all (pageSuppliedOk kw) = !pageFields.any (pageSuppliedIllegal kw) := by
@@ -556,9 +556,13 @@ theorem specPage_cases (kw : PageField → Option Raw) :
         simp [validatePageField_eq f x hd]
     by_cases hbad : pageFields.any (pageSuppliedIllegal kw) = true
     · right
-      simp [constructPage, specPage, hdom, hall, hbad]
-    · left
-      simp [constructPage, specPage, hdom, hall, hbad]
+      refine ⟨⟨.validationError, ?_, rfl⟩, ?_⟩ <;> simp [constructPage, specPage, hdom, hall, hbad]
+    · by_cases hw : 0 < resolvedColWidth kw
+      · left
+        simp [constructPage, specPage, pageColWidthIllegal, hdom, hall, hbad, hw]
+      · right
+        refine ⟨⟨.valueError, ?_, rfl⟩, ?_⟩ <;>
+          simp [constructPage, specPage, pageColWidthIllegal, hdom, hall, hbad, hw]
   · left
     simp [specPage, hdom]
 
@@ -613,9 +617,19 @@ theorem constructFigure_of_domain (a : FigArgs) (h : figInDomain a = true) :
 
 /-! ## RTFDocument -/
 
+theorem groupKept_eq (b : BodySpec) :
+    groupKept b = !(b.groupBy.getD []).any (fun c =>
+      (b.sublineBy.getD []).contains c || (!(b.newPage && b.pagebyColumn) && (b.pageBy.getD []).contains c)) := by
+  simp only [groupKept, BodySpec.removed, List.all_eq_not_any_not]
+  congr 2
+  funext c
+  cases h : (b.newPage && b.pagebyColumn) <;> simp
+
 theorem sectionLegal_eq (cols : List String) (b : BodySpec) : sectionLegal cols b = sectionOk cols b := by
-  obtain ⟨g, p, s⟩ := b
-  cases g <;> cases p <;> cases s <;> simp [sectionLegal, sectionOk, colsPresent]
+  have hk := groupKept_eq b
+  obtain ⟨g, p, s, np, pc⟩ := b
+  simp only [sectionLegal, sectionOk, hk]
+  cases g <;> cases p <;> cases s <;> simp [colsPresent]
 
 theorem sectionsLegal_eq (secs : List (List String)) (bs : List BodySpec) :
     sectionsLegal secs bs = sectionsOk secs bs := by
